@@ -98,12 +98,17 @@ type mapUndo struct {
 func (in *Interp) setCell(c *Cell, v Value) {
 	if in.logging {
 		in.undo = append(in.undo, undoRec{c, c.v})
+	} else if in.setupCells != nil {
+		in.setupCells[c] = true
 	}
 	c.v = v
 }
 
 func (in *Interp) saveMap(m *Map) {
 	if !in.logging {
+		if in.setupMaps != nil {
+			in.setupMaps[m] = true
+		}
 		return
 	}
 	// copy-on-write snapshot (maps in yae are small)
